@@ -317,7 +317,7 @@ func runSched(c *ctx) {
 				continue
 			}
 			for _, ak := range []string{"refresh", "proxy"} {
-				if ak == "proxy" && !c.thorough() && i != 5 && i != 4 {
+				if ak == "proxy" && !c.thorough() && i != 5 && i != 4 && i != 2 { // (2: the entry is replaced between the first read and the re-read under the lock)
 					continue
 				}
 				ps := []procSpec{{"A", ak}, {"B", lk}, {"C", "relogin"}}
